@@ -1200,6 +1200,20 @@ pub fn array_copy_within(
     Ok(Guarded::unguarded(this))
 }
 
+/// The number of elements `splice(start, deleteCount, ...)` / `toSpliced` remove at `start`:
+/// nothing when called without any argument, everything up to the end when only `start` is
+/// given, otherwise `deleteCount` clamped to the elements that are left.
+fn splice_delete_count(args: &[JsValue], length: usize, start: usize) -> usize {
+    let remaining = length.saturating_sub(start);
+    match args {
+        [] => 0,
+        [_start] => remaining,
+        [_start, delete_count, ..] => delete_count
+            .to_integer_or_infinity()
+            .clamp(0.0, remaining as f64) as usize,
+    }
+}
+
 pub fn array_splice(
     interp: &mut Interpreter,
     this: JsValue,
@@ -1215,27 +1229,10 @@ pub fn array_splice(
     let elements = arr_ref
         .array_elements_mut()
         .ok_or_else(|| JsError::type_error("Array.prototype.splice called on non-array"))?;
-    let length = elements.len() as i64;
+    let length = elements.len();
 
-    let start = args
-        .first()
-        .map(|v| {
-            let n = v.to_number() as i64;
-            if n < 0 {
-                (length + n).max(0)
-            } else {
-                n.min(length)
-            }
-        })
-        .unwrap_or(0) as usize;
-
-    let delete_count = args
-        .get(1)
-        .map(|v| {
-            let n = v.to_number() as i64;
-            n.max(0).min(length - start as i64) as usize
-        })
-        .unwrap_or((length - start as i64) as usize);
+    let start = relative_index(args.first(), length, 0);
+    let delete_count = splice_delete_count(args, length, start);
 
     // Remove elements and collect them
     let removed: Vec<JsValue> = elements.drain(start..start + delete_count).collect();
@@ -1929,20 +1926,11 @@ pub fn array_to_spliced(
     let length = arr
         .borrow()
         .array_length()
-        .ok_or_else(|| JsError::type_error("Not an array"))? as i32;
+        .ok_or_else(|| JsError::type_error("Not an array"))?;
 
-    let start_arg = args.first().map(|v| v.to_number() as i32).unwrap_or(0);
-    let start = if start_arg < 0 {
-        (length + start_arg).max(0) as u32
-    } else {
-        (start_arg as u32).min(length as u32)
-    };
-
-    let delete_count = args
-        .get(1)
-        .map(|v| (v.to_number() as i32).max(0) as u32)
-        .unwrap_or((length as u32).saturating_sub(start));
-    let delete_count = delete_count.min(length as u32 - start);
+    let start = relative_index(args.first(), length as usize, 0);
+    let delete_count = splice_delete_count(args, length as usize, start) as u32;
+    let start = start as u32;
 
     let mut result: Vec<JsValue> = (0..start)
         .map(|i| {
@@ -1956,7 +1944,7 @@ pub fn array_to_spliced(
         result.push(arg.clone());
     }
 
-    for i in (start + delete_count)..(length as u32) {
+    for i in (start + delete_count)..length {
         result.push(
             arr.borrow()
                 .get_property(&PropertyKey::Index(i))
